@@ -301,26 +301,52 @@ Definition atomic_new (f : string) (old v : value) : result (option value) :=
   | _, _ => Fail "not modelled: atomic on a non-integer"
   end.
 
-(* ---- pure expressions: no user-function call, no DefaultConstructible(), no atomics.
-   They are evaluated by structural recursion (no fuel); the interpreter below delegates
-   to [peval] whenever the whole expression is pure. ---- *)
-Fixpoint is_pure (e : expr) : bool :=
+(* ---- pure expressions: only literals, variables, operators, casts, constructors, member/index
+   access, metal:: intrinsics and calls of *simple* user functions (all parameters by value, body =
+   pure declarations followed by one return; these are naga's helper functions naga_div, naga_mod,
+   naga_neg, naga_abs, naga_f2i32, naga_dot_intN).  They are evaluated by structural recursion (no fuel)
+   by [peval]; the interpreter below delegates to it whenever the whole expression is pure. ---- *)
+Section PureCheck.
+Variable user_ok : string -> bool.     (* may this user function be called? *)
+Fixpoint is_pure_gen (e : expr) : bool :=
   match e with
   | EInt _ | EUint _ | EFloat _ | EBool _ | EVar _ => true
-  | EUn _ a => is_pure a
-  | EBin _ l r => is_pure l && is_pure r
-  | ECond c a b => is_pure c && is_pure a && is_pure b
-  | ECast _ a | EAsType _ a => is_pure a
+  | EUn _ a => is_pure_gen a
+  | EBin _ l r => is_pure_gen l && is_pure_gen r
+  | ECond c a b => is_pure_gen c && is_pure_gen a && is_pure_gen b
+  | ECast _ a | EAsType _ a => is_pure_gen a
   | ECtor _ args =>
     (fix all (l : list expr) : bool :=
-       match l with [] => true | a :: r => (match a with EZero => true | _ => is_pure a end) && all r end) args
+       match l with [] => true | a :: r => (match a with EZero => true | _ => is_pure_gen a end) && all r end) args
   | EZero | EDC | EAddr _ => false
-  | EMember a _ => is_pure a
-  | EIndex a i => is_pure a && is_pure i
+  | EMember a _ => is_pure_gen a
+  | EIndex a i => is_pure_gen a && is_pure_gen i
   | ECall fn args =>
-    is_intrinsic fn && negb (is_atomic_fn fn) &&
-    (fix all (l : list expr) : bool := match l with [] => true | a :: r => is_pure a && all r end) args
+    (if is_intrinsic fn then negb (is_atomic_fn fn) else user_ok fn) &&
+    (fix all (l : list expr) : bool := match l with [] => true | a :: r => is_pure_gen a && all r end) args
   end.
+End PureCheck.
+
+Definition is_pure0 : expr -> bool := is_pure_gen (fun _ => false).
+
+(* body of a simple function: declarations with pure initialisers, then `return e;` *)
+Fixpoint simple_body (b : list stmt) : option (list (ty * string * expr) * expr) :=
+  match b with
+  | [SReturn (Some e)] => if is_pure0 e then Some ([], e) else None
+  | SDecl t x (Some e) :: r =>
+    if is_pure0 e then match simple_body r with Some (ds, ret) => Some ((t, x, e) :: ds, ret) | None => None end
+    else None
+  | _ => None
+  end.
+
+Definition is_simple_fn (d : fdef) : bool :=
+  negb (existsb pa_ref (fd_params d)) && negb (fd_kernel d) &&
+  match simple_body (fd_body d) with Some _ => true | None => false end.
+
+Definition user_simple (fn : string) : bool :=
+  match find_func fn with Some d => is_simple_fn d | None => false end.
+
+Definition is_pure : expr -> bool := is_pure_gen user_simple.
 
 Definition member_value (E : env) (a : expr) (m : string) (v : value) : result value :=
   match v with
@@ -349,7 +375,14 @@ Definition member_value (E : env) (a : expr) (m : string) (v : value) : result v
   | _ => Fail "member access on a scalar"
   end.
 
-Fixpoint peval (E : env) (M : memory) (e : expr) {struct e} : result value :=
+Section Run.
+Variable G : env.      (* module-scope constants *)
+
+Definition alloc (M : memory) (v : option value) : memory * nat := ((M ++ [v])%list, List.length M).
+
+Section Pure.
+Variable call : string -> list value -> memory -> result value.     (* user-function calls *)
+Fixpoint peval_gen (E : env) (M : memory) (e : expr) {struct e} : result value :=
   match e with
   | EInt z => Done (VI32 (wrap z))
   | EUint z => Done (VU32 (wrap z))
@@ -360,25 +393,25 @@ Fixpoint peval (E : env) (M : memory) (e : expr) {struct e} : result value :=
     | Some b => load M (b_cell b) (b_path b)
     | None => Fail ("not modelled: unknown identifier " ++ x)
     end
-  | EUn o a => v <~ peval E M a ;; unop_val o v
+  | EUn o a => v <~ peval_gen E M a ;; unop_val o v
   | EBin BLAnd l r =>
-    a <~ peval E M l ;;
+    a <~ peval_gen E M l ;;
     match a with
-    | VVec _ => b <~ peval E M r ;; binop_val BLAnd a b      (* MSL: component-wise on vectors, no short circuit *)
+    | VVec _ => b <~ peval_gen E M r ;; binop_val BLAnd a b      (* MSL: component-wise on vectors, no short circuit *)
     | _ => x <~ to_bool a ;;
-           if x then (b <~ peval E M r ;; y <~ to_bool b ;; Done (VBool y)) else Done (VBool false)
+           if x then (b <~ peval_gen E M r ;; y <~ to_bool b ;; Done (VBool y)) else Done (VBool false)
     end
   | EBin BLOr l r =>
-    a <~ peval E M l ;;
+    a <~ peval_gen E M l ;;
     match a with
-    | VVec _ => b <~ peval E M r ;; binop_val BLOr a b
+    | VVec _ => b <~ peval_gen E M r ;; binop_val BLOr a b
     | _ => x <~ to_bool a ;;
-           if x then Done (VBool true) else (b <~ peval E M r ;; y <~ to_bool b ;; Done (VBool y))
+           if x then Done (VBool true) else (b <~ peval_gen E M r ;; y <~ to_bool b ;; Done (VBool y))
     end
-  | EBin o l r => a <~ peval E M l ;; b <~ peval E M r ;; binop_val o a b
-  | ECond c a b => cv <~ peval E M c ;; t <~ to_bool cv ;; if t then peval E M a else peval E M b
-  | ECast t a => v <~ peval E M a ;; cast_val (resolve_ty t) v
-  | EAsType t a => v <~ peval E M a ;; astype_val (resolve_ty t) v
+  | EBin o l r => a <~ peval_gen E M l ;; b <~ peval_gen E M r ;; binop_val o a b
+  | ECond c a b => cv <~ peval_gen E M c ;; t <~ to_bool cv ;; if t then peval_gen E M a else peval_gen E M b
+  | ECast t a => v <~ peval_gen E M a ;; cast_val (resolve_ty t) v
+  | EAsType t a => v <~ peval_gen E M a ;; astype_val (resolve_ty t) v
   | ECtor t args =>
     match args with
     | [] => zero_of 64 t
@@ -387,30 +420,63 @@ Fixpoint peval (E : env) (M : memory) (e : expr) {struct e} : result value :=
                match l with
                | [] => Done []
                | a :: r =>
-                 x <~ match a with EZero => Done None | _ => v <~ peval E M a ;; Done (Some v) end ;;
+                 x <~ match a with EZero => Done None | _ => v <~ peval_gen E M a ;; Done (Some v) end ;;
                  xs <~ go r ;; Done (x :: xs)
                end) args ;;
       ctor t vs
     end
   | EZero => Fail "not modelled: {} in this position"
   | EDC => Fail "not modelled: DefaultConstructible() in this position"
-  | EMember a m => v <~ peval E M a ;; member_value E a m v
-  | EIndex a i => v <~ peval E M a ;; iv <~ peval E M i ;; n <~ index_nat iv ;; index_value v n
+  | EMember a m => v <~ peval_gen E M a ;; member_value E a m v
+  | EIndex a i => v <~ peval_gen E M a ;; iv <~ peval_gen E M i ;; n <~ index_nat iv ;; index_value v n
   | ECall fn args =>
     vs <~ (fix go (l : list expr) : result (list value) :=
              match l with
              | [] => Done []
-             | a :: r => x <~ peval E M a ;; xs <~ go r ;; Done (x :: xs)
+             | a :: r => x <~ peval_gen E M a ;; xs <~ go r ;; Done (x :: xs)
              end) args ;;
-    intrinsic fn vs
+    if is_intrinsic fn then intrinsic fn vs else call fn vs M
   | EAddr _ => Fail "not modelled: address-of in this position"
   end.
 
 (* ---- the interpreter ---- *)
-Section Run.
-Variable G : env.      (* module-scope constants *)
+End Pure.
 
-Definition alloc (M : memory) (v : option value) : memory * nat := ((M ++ [v])%list, List.length M).
+Definition peval0 := peval_gen (fun _ _ _ => Fail "not modelled: user call inside a simple function").
+
+Fixpoint bind_values (ps : list param) (vs : list value) (E : env) (M : memory) : result (env * memory) :=
+  match ps, vs with
+  | [], [] => Done (E, M)
+  | p :: ps', v :: vs' =>
+    v' <~ implicit_conv (resolve_ty (pa_ty p)) v ;;
+    bind_values ps' vs' ((pa_name p, mkbind (pa_ty p) (List.length M) []) :: E) (M ++ [Some v'])%list
+  | _, _ => Fail "call: arity"
+  end.
+
+Fixpoint simple_decls (ds : list (ty * string * expr)) (E : env) (M : memory) : result (env * memory) :=
+  match ds with
+  | [] => Done (E, M)
+  | (t, x, e) :: r =>
+    v <~ peval0 E M e ;; v' <~ implicit_conv (resolve_ty t) v ;;
+    simple_decls r ((x, mkbind t (List.length M) []) :: E) (M ++ [Some v'])%list
+  end.
+
+Definition simple_call (fn : string) (vs : list value) (M : memory) : result value :=
+  match find_func fn with
+  | None => Fail ("not modelled: unknown function " ++ fn)
+  | Some d =>
+    if is_simple_fn d then
+      match simple_body (fd_body d) with
+      | Some (ds, ret) =>
+        em <~ bind_values (fd_params d) vs G M ;;
+        em' <~ simple_decls ds (fst em) (snd em) ;;
+        peval0 (fst em') (snd em') ret
+      | None => Fail "not a simple function"
+      end
+    else Fail "not a simple function"
+  end.
+
+Definition peval := peval_gen simple_call.
 
 Definition label_matches (sel lab : value) : bool :=
   match m_cmp BEq sel lab with Done (VBool b) => b | _ => false end.
